@@ -28,7 +28,7 @@ RULE = ('each run = 20-40 validations of time locks on 1-3 simulated validators 
         'class, observed verdict)')
 REQUIRED_PROBES = ['t==c', 't==c-1', 't-now==thr', 't-now==thr-1', 'thr<=0',
                    'constraint_top_bit', 'encoding_len_9', 'step_between_reads',
-                   'mixed_slack_reads', 'fractional_now', 'empty_window']
+                   'mixed_slack_reads', 'fractional_now', 'empty_window', 'default_timestamp']
 
 KINDS = ['cts', 'ctsv', 'ce', 'cev', 'after', 'afterv', 'before', 'beforev',
          'between', 'betweenv']
@@ -114,6 +114,19 @@ def gen_step(rng: Rng, cell, vname, now_s, at_us, big):
         else:
             step['c2'] = c                      # end
             step['c'] = max(c - width, 0)
+    if rng.chance(1, 8) and kind not in ('ce', 'cev'):
+        # the embedder does not supply a timestamp: the execution timestamp is
+        # run_script's default, i.e. the validator clock at that instant; the
+        # constraint is placed relative to it
+        step['default_t'] = True
+        for key in ('c', 'c2'):
+            if key in step:
+                step[key] = max(step[key] - step['t'] + now_s, 0)
+        if 'enc' in step:
+            c2 = step['c']
+            minlen = max(1, (c2.bit_length() + 7) // 8)
+            step['enc'] = _encode(c2, min(9, max(minlen, len(step['enc']) // 2)))
+        step['t'] = None
     # clock faults inside the validation (read 0 = run_script's default
     # timestamp; later reads = the CHECK_* instructions)
     thr_mag = abs(thr) if thr else 1
@@ -203,6 +216,7 @@ def observe(step, lock, run):
     """Run the real code; returns 'ACCEPT' / 'REJECT' / 'BAD:<why>'."""
     k = step['kind']
     t = step['t']
+    cache = {} if t is None else {'timestamp': t}
     if k in ('cts', 'ctsv', 'ce', 'cev'):
         flags = {}
         if step['via'] == 'additional':
@@ -211,8 +225,10 @@ def observe(step, lock, run):
             F.flags['ts_threshold'] = step['thr']
             F.flags['epoch_threshold'] = step['thr_e']
         try:
-            _, stack, _ = F.run_script(lock.bytes, {'timestamp': t},
-                                       additional_flags=flags)
+            if t is None:       # really rely on the defaults: no cache argument at all
+                _, stack, _ = F.run_script(lock.bytes, additional_flags=flags)
+            else:
+                _, stack, _ = F.run_script(lock.bytes, cache, additional_flags=flags)
         except ScriptExecutionError:
             return REJECT if k in ('ctsv', 'cev') else 'BAD:raised_ScriptExecutionError'
         except LIB_ERRORS as e:
@@ -225,13 +241,25 @@ def observe(step, lock, run):
         if items == [b'\x00']:
             return REJECT
         return 'BAD:stack_' + ','.join(i.hex() for i in items)[:40]
-    F.flags['ts_threshold'] = step['thr']
-    F.flags['epoch_threshold'] = step['thr_e']
     scripts = [lock]
     if k.endswith('v'):
         scripts = [T.Script.from_src('true'), lock]
+    if step['via'] == 'additional':
+        # the verifier supplies its thresholds per call
+        try:
+            af = {'ts_threshold': step['thr'], 'epoch_threshold': step['thr_e']}
+            code = b''.join(s.bytes for s in scripts)
+            if t is None:
+                _, stack, _ = F.run_script(code, additional_flags=af)
+            else:
+                _, stack, _ = F.run_script(code, cache, additional_flags=af)
+        except LIB_ERRORS:
+            return REJECT
+        return ACCEPT if stack.list() == [b'\xff'] else REJECT
+    F.flags['ts_threshold'] = step['thr']
+    F.flags['epoch_threshold'] = step['thr_e']
     try:
-        r = F.run_auth_scripts(scripts, {'timestamp': t})
+        r = F.run_auth_scripts(scripts) if t is None else F.run_auth_scripts(scripts, cache)
     except BaseException as e:      # noqa
         run.aux_auth_raised += 1
         return 'BAD:auth_raised_' + type(e).__name__
@@ -335,6 +363,10 @@ def execute(plan, run):
             obs = observe(step, lock, run)
         finally:
             reads = CLOCK.end_call()
+        if step['t'] is None:
+            # default execution timestamp: whatever the clock showed first in this call
+            run.probe('default_timestamp')
+            step = dict(step, t=int(reads[0]) if reads else 0)
         mdl = model(step, reads)
         run.sched.append([step['kind'], step['validator'], len(reads),
                           [f['kind'] for f in step['faults']]])
@@ -406,13 +438,14 @@ def shrink(plan):
     if len(eps) == 1 and eps[0] not in (100000,) and \
             not any('enc' in s for s in p['steps']):
         d = eps[0] - 100000
-        if all(s['t'] - d >= 0 and s.get('c', d) - d >= 0 and
+        if all((s['t'] is None or s['t'] - d >= 0) and s.get('c', d) - d >= 0 and
                s.get('c2', d) - d >= 0 for s in p['steps']):
             c = copy.deepcopy(p)
             for v in c['validators'].values():
                 v['epoch0_s'] -= d
             for s in c['steps']:
-                s['t'] -= d
+                if s['t'] is not None:
+                    s['t'] -= d
                 for key in ('c', 'c2'):
                     if key in s:
                         s[key] -= d
